@@ -584,6 +584,10 @@ impl Job for Mutate {
         let poff = sp.iter().find(|s| s.name == "fri.partitions").map(|s| s.off).unwrap_or(usize::MAX);
         let honest = judge_bytes::<B, H>(&bytes, &bytes, poff, &b.inputs);
         let ext_bytes = B::ELEMENT_BYTES * sc.ext as usize;
+        let digest_len = {
+            use winter_utils::Serializable;
+            H::hash(&[]).to_bytes().len()
+        };
         let mut tally: BTreeMap<String, usize> = BTreeMap::new();
         let mut findings: Vec<Value> = vec![];
         let mut record = |what: String, outcome: String, tally: &mut BTreeMap<String, usize>, findings: &mut Vec<Value>, may_keep: bool| {
@@ -597,7 +601,7 @@ impl Job for Mutate {
         let mut applied = 0usize;
         let mut structured: Vec<Value> = vec![];
         for mu in &self.mutations {
-            let chunk = if mu.field == "commitments" || mu.field.ends_with(".paths") { 32 } else { ext_bytes };
+            let chunk = if mu.field == "commitments" || mu.field.ends_with(".paths") { digest_len } else { ext_bytes };
             if let Some(mb) = apply(&bytes, &sp, mu, chunk) {
                 applied += 1;
                 let o = judge_bytes::<B, H>(&mb, &bytes, poff, &b.inputs);
